@@ -709,6 +709,42 @@ func verifAssume(cond bool) {}
 //@   modifies nothing
 //@   ensures [C08,C09,C20] @ownstate result != nil && fresh(result) && result.config != nil && fresh(result.config) && result.mux != nil && fresh(result.mux)
 
+// Enabling a scheme adds exactly that scheme to the offer (C03: "under a scheme the
+// server offered") and installs the given authenticator for it.
+//@ func (*ServerBuilder).EnableGuestAuthentication :: (b) (result)
+//@   props C03
+//@   requires b != nil && b.config != nil && !sameobj(b.config, b)
+//@   modifies b.config.SchemeOpts
+//@   ensures result == b
+//@   ensures [C03] @addsonlythis inset(elems(b.config.SchemeOpts), AuthenticationSchemeGuest) && subset(old(elems(b.config.SchemeOpts)), elems(b.config.SchemeOpts)) && len(b.config.SchemeOpts) <= old(len(b.config.SchemeOpts)) + 1 && (old(inset(elems(b.config.SchemeOpts), AuthenticationSchemeGuest)) ==> len(b.config.SchemeOpts) == old(len(b.config.SchemeOpts)))
+//@ func (*ServerBuilder).EnableTransportAuthentication :: (b) (result)
+//@   props C03
+//@   requires b != nil && b.config != nil && !sameobj(b.config, b)
+//@   modifies b.config.SchemeOpts
+//@   ensures result == b
+//@   ensures [C03] @addsonlythis inset(elems(b.config.SchemeOpts), AuthenticationSchemeTransport) && subset(old(elems(b.config.SchemeOpts)), elems(b.config.SchemeOpts)) && len(b.config.SchemeOpts) <= old(len(b.config.SchemeOpts)) + 1 && (old(inset(elems(b.config.SchemeOpts), AuthenticationSchemeTransport)) ==> len(b.config.SchemeOpts) == old(len(b.config.SchemeOpts)))
+//@ func (*ServerBuilder).EnablePlainAuthentication :: (b, a) (result)
+//@   props C03
+//@   requires b != nil && b.config != nil && !sameobj(b.config, b)
+//@   panics only-if a == nil
+//@   modifies b.config.SchemeOpts, b.plainAuth
+//@   ensures [C03] @installs result == b && b.plainAuth == a
+//@   ensures [C03] @addsonlythis inset(elems(b.config.SchemeOpts), AuthenticationSchemePlain) && subset(old(elems(b.config.SchemeOpts)), elems(b.config.SchemeOpts)) && len(b.config.SchemeOpts) <= old(len(b.config.SchemeOpts)) + 1 && (old(inset(elems(b.config.SchemeOpts), AuthenticationSchemePlain)) ==> len(b.config.SchemeOpts) == old(len(b.config.SchemeOpts)))
+//@ func (*ServerBuilder).EnableKeyAuthentication :: (b, a) (result)
+//@   props C03
+//@   requires b != nil && b.config != nil && !sameobj(b.config, b)
+//@   panics only-if a == nil
+//@   modifies b.config.SchemeOpts, b.keyAuth
+//@   ensures [C03] @installs result == b && b.keyAuth == a
+//@   ensures [C03] @addsonlythis inset(elems(b.config.SchemeOpts), AuthenticationSchemeKey) && subset(old(elems(b.config.SchemeOpts)), elems(b.config.SchemeOpts)) && len(b.config.SchemeOpts) <= old(len(b.config.SchemeOpts)) + 1 && (old(inset(elems(b.config.SchemeOpts), AuthenticationSchemeKey)) ==> len(b.config.SchemeOpts) == old(len(b.config.SchemeOpts)))
+//@ func (*ServerBuilder).EnableExternalAuthentication :: (b, a) (result)
+//@   props C03
+//@   requires b != nil && b.config != nil && !sameobj(b.config, b)
+//@   panics only-if a == nil
+//@   modifies b.config.SchemeOpts, b.externalAuth
+//@   ensures [C03] @installs result == b && b.externalAuth == a
+//@   ensures [C03] @addsonlythis inset(elems(b.config.SchemeOpts), AuthenticationSchemeExternal) && subset(old(elems(b.config.SchemeOpts)), elems(b.config.SchemeOpts)) && len(b.config.SchemeOpts) <= old(len(b.config.SchemeOpts)) + 1 && (old(inset(elems(b.config.SchemeOpts), AuthenticationSchemeExternal)) ==> len(b.config.SchemeOpts) == old(len(b.config.SchemeOpts)))
+
 // The negotiation policy a server is built with is exactly the one the application
 // configured (C09/C10): the option setters replace the list with the caller's, they
 // do not merge it with the defaults of NewServerConfig (which include `none`).
@@ -1324,7 +1360,82 @@ func verifWireRawEnvelope(in *rawEnvelope) (out *rawEnvelope, err error) { panic
 //@ func MediaTypePing :: () (result)
 //@   props C01 C11
 //@   modifies nothing
+//@   ensures [C01,C11] @declared result == MediaType{Type: "application", Subtype: "vnd.lime.ping", Suffix: "json"}
 //@   ensures [C01,C11] @wellformed textOK_MediaType(result) && result.Suffix == "json"  ## a registered type is keyed by its media type VALUE: the key must be what ParseMediaType makes of its own text, or the decoder never finds the factory
+// Small value-returning functions that the larger contracts take for granted:
+// the scheme a credential type declares (it is what SetAuthentication stamps on
+// the session and what the server matches against its offer - the wire texts are
+// the protocol's), the role an authentication result constructor stands for, the
+// media type a built-in document declares (the key of its factory), and the
+// channel's accessors.
+//@ func (*GuestAuthentication).GetAuthenticationScheme :: (g) (result)
+//@   props C01 C03 C08
+//@   modifies nothing
+//@   ensures [C01,C03,C08] @scheme result == AuthenticationSchemeGuest && result == "guest"
+//@ func (*PlainAuthentication).GetAuthenticationScheme :: (a) (result)
+//@   props C01 C03 C08
+//@   modifies nothing
+//@   ensures [C01,C03,C08] @scheme result == AuthenticationSchemePlain && result == "plain"
+//@ func (*KeyAuthentication).GetAuthenticationScheme :: (a) (result)
+//@   props C01 C03 C08
+//@   modifies nothing
+//@   ensures [C01,C03,C08] @scheme result == AuthenticationSchemeKey && result == "key"
+//@ func (*TransportAuthentication).GetAuthenticationScheme :: (a) (result)
+//@   props C01 C03 C08
+//@   modifies nothing
+//@   ensures [C01,C03,C08] @scheme result == AuthenticationSchemeTransport && result == "transport"
+//@ func (*ExternalAuthentication).GetAuthenticationScheme :: (a) (result)
+//@   props C01 C03 C08
+//@   modifies nothing
+//@   ensures [C01,C03,C08] @scheme result == AuthenticationSchemeExternal && result == "external"
+//@ func UnknownAuthenticationResult :: () (result)
+//@   props C03
+//@   modifies nothing
+//@   ensures [C03] @role result != nil && fresh(result) && result.Role == DomainRoleUnknown && result.RoundTrip == nil
+//@ func MemberAuthenticationResult :: () (result)
+//@   props C03
+//@   modifies nothing
+//@   ensures [C03] @role result != nil && fresh(result) && result.Role == DomainRoleMember && result.RoundTrip == nil
+//@ func AuthorityAuthenticationResult :: () (result)
+//@   props C03
+//@   modifies nothing
+//@   ensures [C03] @role result != nil && fresh(result) && result.Role == DomainRoleAuthority && result.RoundTrip == nil
+//@ func RootAuthorityAuthenticationResult :: () (result)
+//@   props C03
+//@   modifies nothing
+//@   ensures [C03] @role result != nil && fresh(result) && result.Role == DomainRoleRootAuthority && result.RoundTrip == nil
+//@ func (*Ping).MediaType :: (p) (result)
+//@   props C01 C11
+//@   modifies nothing
+//@   ensures [C01,C11] @declared result == MediaType{Type: "application", Subtype: "vnd.lime.ping", Suffix: "json"}
+//@ func (*DocumentContainer).MediaType :: (d) (result)
+//@   props C01
+//@   modifies nothing
+//@   ensures [C01] @declared result == MediaType{Type: "application", Subtype: "vnd.lime.container", Suffix: "json"} && textOK_MediaType(result)
+//@ func (*DocumentCollection).MediaType :: (d) (result)
+//@   props C01
+//@   modifies nothing
+//@   ensures [C01] @declared result == MediaType{Type: "application", Subtype: "vnd.lime.collection", Suffix: "json"} && textOK_MediaType(result)
+//@ func (*channel).ID :: (c) (result)
+//@   props C08 C17
+//@   requires c != nil
+//@   modifies nothing
+//@   ensures [C08,C17] result == c.sessionID
+//@ func (*channel).RemoteNode :: (c) (result)
+//@   props C08 C17
+//@   requires c != nil
+//@   modifies nothing
+//@   ensures [C08,C17] result == c.remoteNode
+//@ func (*channel).LocalNode :: (c) (result)
+//@   props C08 C17
+//@   requires c != nil
+//@   modifies nothing
+//@   ensures [C08,C17] result == c.localNode
+//@ func (*ResponseCommand).SetStatusFailure :: (cmd, r) ()
+//@   props C11
+//@   requires cmd != nil
+//@   modifies cmd.Status, cmd.Reason
+//@   ensures [C11] cmd.Status == CommandStatusFailure && cmd.Reason != nil && fresh(cmd.Reason) && *cmd.Reason == r
 //@ func (Node).MarshalText :: (n) (result0, result1)
 //@   props C01 C02
 //@   modifies nothing
@@ -2627,14 +2738,16 @@ func lemmaForwardSession(raw *rawEnvelope) (e *Session, e3 *Session, accepted bo
 //@ spec fn compPair(a interface{}, b interface{}) bool = istype(a, []SessionCompression) && istype(b, []SessionCompression)
 
 //@ func contains :: (a, e) (result)
-//@   props C09 C10
-//@   requires istype(a, []SessionEncryption) || istype(a, []SessionCompression)
+//@   props C03 C09 C10
+//@   requires istype(a, []SessionEncryption) || istype(a, []SessionCompression) || istype(a, []AuthenticationScheme)
 //@   modifies nothing
 //@   loop 0 invariant 0 <= carried(int)
+//@   loop 0 invariant istype(a, []AuthenticationScheme) ==> carried(int) <= len(a.([]AuthenticationScheme)) && (istype(e, AuthenticationScheme) ==> !inset(elems(prefix(a.([]AuthenticationScheme), carried(int))), e.(AuthenticationScheme)))
 //@   loop 0 invariant istype(a, []SessionEncryption) ==> carried(int) <= len(a.([]SessionEncryption)) && (istype(e, SessionEncryption) ==> !inset(elems(prefix(a.([]SessionEncryption), carried(int))), e.(SessionEncryption)))
 //@   loop 0 invariant istype(a, []SessionCompression) ==> carried(int) <= len(a.([]SessionCompression)) && (istype(e, SessionCompression) ==> !inset(elems(prefix(a.([]SessionCompression), carried(int))), e.(SessionCompression)))
 //@   ensures [C09,C10] @membership istype(a, []SessionEncryption) && istype(e, SessionEncryption) ==> result == inset(elems(a.([]SessionEncryption)), e.(SessionEncryption))
 //@   ensures [C09,C10] @membershipcomp istype(a, []SessionCompression) && istype(e, SessionCompression) ==> result == inset(elems(a.([]SessionCompression)), e.(SessionCompression))
+//@   ensures [C03] @membershipscheme istype(a, []AuthenticationScheme) && istype(e, AuthenticationScheme) ==> result == inset(elems(a.([]AuthenticationScheme)), e.(AuthenticationScheme))
 
 //@ func intersect :: (a, b) (result)
 //@   props C09 C10
